@@ -175,7 +175,7 @@ def stat_cases(rng, seeds, tier):
     for i, (fam, ps) in enumerate(fams):
         s = seeds[i % len(seeds)]
         cases.append(["case ks-%s-%d" % (fam, i), "seed %d" % s, "ks %s %d %s" % (fam, n_ks, " ".join(map(hx, ps)))])
-    kinds = ["pickwc", "pick1c", "cumsum", "multinom", "samplew", "shuffle", "drand"]
+    kinds = ["pickwc", "pickw", "pick1c", "cumsum", "multinom", "samplew", "samplewr", "samplewe", "shuffle", "drand"]
     wsets = [[1.0], [1.0, 3.0], [1.0, 0.0, 3.0], [0.0, 2.0, 2.0, 0.0, 4.0], [0.05, 0.9, 0.05], [float(i + 1) for i in range(12)]]
     wsets += [weights(rng, rng.randint(2, 12)) for _ in range(6 if big else 2)]
     i = 0
